@@ -17,6 +17,7 @@ def obligations(tier):
     reruns = [("D18", 5, ["s/0", "a/0", "b/0", "c/0", "j/0"]), ("D05b", 5, ["s/0", "a/0", "b/0", "j/0", "z/0"]), ("D10", 4, ["s/0", "a/0", "b/0", "c/0"]), ("D11", 4, ["w/0", "z/0"])]
     if tier == "quick":
         reruns = [r for r in reruns if r[0] in ("D18", "D11")]
+    # relaxed start order (an offered task is started only after a further event) around an explicit rerun
     for did, steps, labels in reruns:
         o = ob("C18", "e2c.rerun." + did, "vt.harness.C18:append_only", {"did": did, "steps": steps, "tokens": True, "rerun": "explicit", "rerun_steps": 3 if tier == "quick" else 5, "rerun_ok": tier == "quick"}, timeout=1200)
         o["antecedents"] = ["c18_compared", "c18_decided"]
